@@ -266,7 +266,7 @@ def deep_random(kind):
     """kind: reduce | compose | arith | eliminate | regions. Every scenario is a tree (pair) with up to 15 decisions."""
     def gen(seed, tier):
         rnd = random.Random(hash(kind) % 100000 + 7 * seed) if False else random.Random(sum(map(ord, kind)) * 1000 + seed)
-        n = 24 if tier == 'quick' else 400
+        n = (60 if kind == 'elimreduce' else 24) if tier == 'quick' else 400
         out = []
         for _ in range(n):
             if kind == 'reduce':
@@ -293,6 +293,11 @@ def deep_random(kind):
                 if rnd.random() < 0.5:
                     steps = [{'op': rnd.choice(['compose', 'compose_prune']), 'rhs': _script_of(_rand_tree2(rnd, 1, D_TERM22)), 'aff': NOAFF}] + steps
                 out.append({'fam': 'afftree', 'k': 2, 'q': 1, 'mode': 'history', 'lhs': _script_of(t), 'steps': steps, 'faults': [], 'all': True})
+            elif kind == 'elimreduce':
+                # reduce on a tree that carries cached feasibility states (and holes in the arena) from an earlier elimination
+                t = _rand_tree2(rnd, 3, D_TERM22[:2], pmiss=0.0 if rnd.random() < 0.7 else 0.15, pleaf=0.2)
+                out.append({'fam': 'afftree', 'k': 2, 'q': 1, 'mode': 'history', 'lhs': _script_of(t),
+                            'steps': [{'op': 'eliminate', 'rhs': [], 'aff': NOAFF}, {'op': 'reduce', 'rhs': [], 'aff': NOAFF}], 'faults': [], 'all': True})
             elif kind == 'regions':
                 t = _rand_tree2(rnd, 4, D_TERM22)
                 nn = len(_script_of(t))
@@ -307,7 +312,7 @@ def deep_random(kind):
 
 
 def DR(kind, trace='Trace_AffTree', shard=8):
-    nt = regions_nontrivial if kind == 'regions' else (history_nontrivial if kind == 'eliminate' else afftree_nontrivial)
+    nt = regions_nontrivial if kind == 'regions' else (history_nontrivial if kind in ('eliminate', 'elimreduce') else afftree_nontrivial)
     return Stage('deep-' + kind, trace, gen=deep_random(kind), nontrivial=nt, shard_events=shard)
 
 
@@ -330,7 +335,8 @@ def c05_stages(tier):
 
 def c06_stages(tier):
     # pruning scenarios plus the terminal-count bounds of distilled ReLU networks
-    return [s for s in prune_stages(tier) if not s.name.startswith('prunea')] + c01_stages(tier)
+    # slice-q: elimination ; remove_axes ; elimination (cached states of the first run must not survive the change of the input space)
+    return [s for s in prune_stages(tier) if not s.name.startswith('prunea')] + c01_stages(tier) + [DS('slice-q', 'MC_Distill_slice_q.cfg', shard_events=300)]
 
 
 # ------------------------------------------------------------------------------------------ linalg (C10, C14, C15, C16)
@@ -421,7 +427,7 @@ def c07_stages(tier):
 
 
 def c08_stages(tier):
-    st = [AT('reduce-q', 'MC_AffTree_reduce_q.cfg'), AT('reduce-p', 'MC_AffTree_reduce_p.cfg'), DR('reduce')]
+    st = [AT('reduce-q', 'MC_AffTree_reduce_q.cfg'), AT('reduce-p', 'MC_AffTree_reduce_p.cfg'), DR('reduce'), DR('elimreduce')]
     if tier == 'thorough':
         st += [AT('reduce-t', 'MC_AffTree_reduce_t.cfg')]
     return st
